@@ -15,7 +15,7 @@
 import RtamtProofs.Lemmas.Lawful
 import Rtamt.Dense.Ref
 import Mathlib.Order.Bounds.Basic
-import RtamtProofs.Dense.StepNodes
+import RtamtProofs.Dense.StepEval
 
 namespace Rtamt.Dense
 open Rtamt Val
@@ -182,17 +182,240 @@ theorem rhoD_stepOn (cfg : DCfg) (hs : 0 ≤ cfg.scale) (w : DEnv α) (φ : F α
       · exact Or.inr ⟨c, List.mem_cons_of_mem _ hc, rfl⟩
     · exact absurd hsup (by simp)
 
-/-- The robustness signal of a dense-time formula on step-function inputs is a step function
-    on `[dom, ∞)` whose break-points are among the candidates `bps`. -/
-theorem rhoD_isStep (cfg : DCfg) (hs : 0 ≤ cfg.scale) (w : DEnv α) (φ : F α) (hsup : supported φ = true)
-    (hw : w.WF φ.vars) :
-    IsStep (rhoD cfg w φ) (bps cfg w φ) (dom w φ) := by
-  sorry
+/-- `rhoD_isStep` for the domain-restricted function (holds for every supported formula). -/
+theorem rhoD_isStep_restricted (cfg : DCfg) (hs : 0 ≤ cfg.scale) (w : DEnv α) (φ : F α)
+    (hsup : supported φ = true) (hw : w.WF φ.vars) :
+    IsStep (fun t => if t < dom w φ then none else rhoD cfg w φ t) (bps cfg w φ) (dom w φ) := by
+  refine StepOn.isStep ?_ (fun t ht => if_pos ht)
+  exact (rhoD_stepOn cfg hs w φ hsup hw).congr (fun s h _ => if_neg (not_lt.2 h))
 
-/-- The bottom-up evaluator (what the driver runs) computes `rhoD`. -/
-theorem evalAt_eq_rhoD (cfg : DCfg) (hs : 0 ≤ cfg.scale) (w : DEnv α) (φ : F α) (hsup : supported φ = true)
-    (hw : w.WF φ.vars) (t : Rat) :
+/-! #### The first clause of `IsStep` (`rhoD φ t = none` for `t < dom w φ`)
+
+It fails for formulas that are point-wise combinations of constants only (`rhoD (.const c)` is
+defined everywhere, `dom = 0`) and for variables whose first time stamp is negative
+(`dom = max 0 τ0`).  It holds for `guarded` formulas over signals starting at `τ0 ≥ 0`. -/
+
+/-- Not a point-wise combination of constants only. -/
+def guarded : F α → Bool
+  | .var _ => true
+  | .const _ => false
+  | .un _ φ => guarded φ
+  | .bin _ φ ψ => guarded φ || guarded ψ
+  | .tmp1 _ _ => true
+  | .tmp2 _ _ _ => true
+  | .tb1 _ _ _ _ => true
+  | .tb2 _ _ _ _ _ => true
+
+/-- Every variable of the formula starts at a non-negative time. -/
+def DEnv.NonnegStart (w : DEnv α) (xs : List String) : Prop :=
+  ∀ x ∈ xs, 0 ≤ ((w.sig x).times.head?).getD 0
+
+omit [Val α] [LawfulVal α] in
+theorem valAt_none_of_lt_head (s : DSig α) (t : Rat) (h : t < s.times.head?.getD 0) :
+    s.valAt t = none := by
+  cases s with
+  | nil => rfl
+  | cons p rest =>
+    obtain ⟨τ, v⟩ := p
+    rw [valAt_cons, if_pos]
+    simpa [DSig.times] using h
+
+omit [LawfulVal α] in
+theorem rhoD_none_before (cfg : DCfg) (w : DEnv α) (φ : F α) (hpos : w.NonnegStart φ.vars) :
+    (guarded φ = true → ∀ t, t < dom w φ → rhoD cfg w φ t = none) ∧
+      (guarded φ = false → dom w φ = 0) := by
+  induction φ with
+  | var x =>
+    refine ⟨fun _ t ht => ?_, fun h => by simp [guarded] at h⟩
+    rw [dom_var, max_eq_right (hpos x (by simp [F.vars]))] at ht
+    exact valAt_none_of_lt_head _ _ ht
+  | const c => exact ⟨fun h => by simp [guarded] at h, fun _ => dom_of_vars_nil w rfl⟩
+  | un op φ ih =>
+    obtain ⟨i1, i2⟩ := ih hpos
+    refine ⟨fun h t ht => ?_, fun h => i2 h⟩
+    show (rhoD cfg w φ t).map op.app = none
+    rw [i1 h t ht]; rfl
+  | bin op φ ψ ihφ ihψ =>
+    obtain ⟨a1, a2⟩ := ihφ (fun x hx => hpos x (List.mem_append_left _ hx))
+    obtain ⟨b1, b2⟩ := ihψ (fun x hx => hpos x (List.mem_append_right _ hx))
+    have hd := dom_of_vars_append w (φ := .bin op φ ψ) (φ1 := φ) (φ2 := ψ) rfl
+    refine ⟨fun h t ht => ?_, fun h => ?_⟩
+    · rw [hd] at ht
+      simp only [guarded, Bool.or_eq_true] at h
+      have hn : rhoD cfg w φ t = none ∨ rhoD cfg w ψ t = none := by
+        cases hgφ : guarded φ <;> cases hgψ : guarded ψ
+        · simp [hgφ, hgψ] at h
+        · right; apply b1 hgψ
+          rw [a2 hgφ, max_eq_right (dom_nonneg w ψ)] at ht; exact ht
+        · left; apply a1 hgφ
+          rw [b2 hgψ, max_eq_left (dom_nonneg w φ)] at ht; exact ht
+        · rcases lt_max_iff.1 ht with h' | h'
+          · left; exact a1 hgφ t h'
+          · right; exact b1 hgψ t h'
+      show (do
+        let l ← rhoD cfg w φ t
+        let r ← rhoD cfg w ψ t
+        pure (op.app l r)) = none
+      rcases hn with e | e
+      · rw [e]; rfl
+      · rw [e]; cases rhoD cfg w φ t <;> rfl
+    · simp only [guarded, Bool.or_eq_false_iff] at h
+      rw [hd, a2 h.1, b2 h.2, max_self]
+  | tmp1 op φ _ =>
+    refine ⟨fun _ t ht => ?_, fun h => by simp [guarded] at h⟩
+    have ht' : t < dom w φ := ht
+    simp only [rhoD, if_pos ht']
+  | tmp2 op φ ψ _ _ =>
+    refine ⟨fun _ t ht => ?_, fun h => by simp [guarded] at h⟩
+    rw [dom_of_vars_append w (φ := .tmp2 op φ ψ) (φ1 := φ) (φ2 := ψ) rfl] at ht
+    simp only [rhoD, if_pos ht]
+  | tb1 op a b φ _ =>
+    refine ⟨fun _ t ht => ?_, fun h => by simp [guarded] at h⟩
+    have ht' : t < dom w φ := ht
+    simp only [rhoD, if_pos ht']
+  | tb2 op a b φ ψ _ _ =>
+    refine ⟨fun _ t ht => ?_, fun h => by simp [guarded] at h⟩
+    rw [dom_of_vars_append w (φ := .tb2 op a b φ ψ) (φ1 := φ) (φ2 := ψ) rfl] at ht
+    simp only [rhoD, if_pos ht]
+
+/-- `rhoD_isStep` under the two extra hypotheses that make its first clause true:
+    the formula is not a constant expression, and no input signal starts before time 0. -/
+theorem rhoD_isStep_partial (cfg : DCfg) (hs : 0 ≤ cfg.scale) (w : DEnv α) (φ : F α)
+    (hsup : supported φ = true) (hw : w.WF φ.vars)
+    (hguard : guarded φ = true) (hpos : w.NonnegStart φ.vars) :
+    IsStep (rhoD cfg w φ) (bps cfg w φ) (dom w φ) :=
+  (rhoD_stepOn cfg hs w φ hsup hw).isStep ((rhoD_none_before cfg w φ hpos).1 hguard)
+
+omit [LawfulVal α] in
+/-- Counterexample 1 to `rhoD_isStep` as stated: a constant (`supported`, `WF` vacuous) is defined
+    before `dom = 0`. -/
+theorem rhoD_isStep_false_const (cfg : DCfg) (w : DEnv α) (c : α) :
+    supported (F.const c) = true ∧ w.WF (F.const c).vars ∧
+      ¬ IsStep (rhoD cfg w (.const c)) (bps cfg w (.const c)) (dom w (.const c)) := by
+  refine ⟨rfl, fun x hx => by simp [F.vars] at hx, fun h => ?_⟩
+  have h1 := h.1 (-1) (by rw [dom_of_vars_nil w (φ := F.const c) rfl]; norm_num)
+  simp [rhoD] at h1
+
+omit [LawfulVal α] in
+/-- Counterexample 2 to `rhoD_isStep` as stated: a variable whose signal starts at `-2`:
+    `dom = max 0 (-2) = 0` but the signal is defined at `-1`. -/
+theorem rhoD_isStep_false_var (cfg : DCfg) (v : α) :
+    (DEnv.WF [("x", [((-2 : Rat), v)])] (F.var "x" : F α).vars) ∧
+      ¬ IsStep (rhoD cfg [("x", [((-2 : Rat), v)])] (F.var "x" : F α))
+        (bps cfg [("x", [((-2 : Rat), v)])] (F.var "x" : F α))
+        (dom [("x", [((-2 : Rat), v)])] (F.var "x" : F α)) := by
+  have hsig : DEnv.sig [("x", [((-2 : Rat), v)])] "x" = [((-2 : Rat), v)] := by
+    simp [DEnv.sig, List.lookup]
+  refine ⟨fun x hx => ?_, fun h => ?_⟩
+  · simp only [F.vars, List.mem_singleton] at hx
+    subst hx
+    rw [hsig]
+    exact ⟨by simp, by simp [DSig.times]⟩
+  · have hd : dom [("x", [((-2 : Rat), v)])] (F.var "x" : F α) = 0 := by
+      rw [dom_var, hsig]
+      simp [DSig.times]
+    have h1 := h.1 (-1) (by rw [hd]; norm_num)
+    simp only [rhoD, hsig, valAt_cons] at h1
+    rw [if_neg (by norm_num)] at h1
+    simp at h1
+
+-- (the unrestricted statement `rhoD_isStep` is false before the domain start: see the `_false_` /
+-- `_ne_` theorems above; the restricted and partial forms are proved.)
+
+
+/-- From the start of its domain on, the sample list computed bottom-up for a node represents
+    `rhoD` of that node. -/
+theorem asFun_sigOf_eq_rhoD (cfg : DCfg) (hs : 0 ≤ cfg.scale) (w : DEnv α) (φ : F α)
+    (hsup : supported φ = true) (hw : w.WF φ.vars) :
+    ∀ t, dom w φ ≤ t → asFun φ (sigOf cfg w φ) t = rhoD cfg w φ t := by
+  induction φ with
+  | var x => intro t _; rfl
+  | const c => intro t _; rfl
+  | un op φ ih =>
+    intro t ht
+    exact valAt_sample_eq_rhoD cfg w _ _ (rhoD_stepOn cfg hs w _ hsup hw)
+      (fun s hs' => opAt_un cfg w op φ _ s (ih hsup hw s hs')) t ht
+  | bin op φ ψ ihφ ihψ =>
+    intro t ht
+    have hsup' := hsup
+    simp only [supported, Bool.and_eq_true] at hsup'
+    have hwφ : w.WF φ.vars := fun x hx => hw x (List.mem_append_left _ hx)
+    have hwψ : w.WF ψ.vars := fun x hx => hw x (List.mem_append_right _ hx)
+    have hd := dom_of_vars_append w (φ := .bin op φ ψ) (φ1 := φ) (φ2 := ψ) rfl
+    exact valAt_sample_eq_rhoD cfg w _ _ (rhoD_stepOn cfg hs w _ hsup hw)
+      (fun s hs' => opAt_bin cfg w op φ ψ _ _ s
+        (ihφ hsup'.1 hwφ s (le_trans (le_max_left _ _) (hd ▸ hs')))
+        (ihψ hsup'.2 hwψ s (le_trans (le_max_right _ _) (hd ▸ hs')))) t ht
+  | tmp1 op φ ih =>
+    intro t ht
+    have hsup' : supported φ = true := by
+      simp only [supported, Bool.and_eq_true] at hsup; exact hsup.2
+    exact valAt_sample_eq_rhoD cfg w _ _ (rhoD_stepOn cfg hs w _ hsup hw)
+      (fun s hs' => opAt_tmp1 cfg w op φ _ s (ih hsup' hw) hs') t ht
+  | tmp2 op φ ψ ihφ ihψ =>
+    intro t ht
+    have hsup' := hsup
+    simp only [supported, Bool.and_eq_true] at hsup'
+    have hwφ : w.WF φ.vars := fun x hx => hw x (List.mem_append_left _ hx)
+    have hwψ : w.WF ψ.vars := fun x hx => hw x (List.mem_append_right _ hx)
+    have hd := dom_of_vars_append w (φ := .tmp2 op φ ψ) (φ1 := φ) (φ2 := ψ) rfl
+    exact valAt_sample_eq_rhoD cfg w _ _ (rhoD_stepOn cfg hs w _ hsup hw)
+      (fun s hs' => opAt_tmp2 cfg w op φ ψ _ _ s (ihφ hsup'.1 hwφ) (ihψ hsup'.2 hwψ)
+        (hd ▸ hs')) t ht
+  | tb1 op a b φ ih =>
+    intro t ht
+    have hsup' : supported φ = true := by
+      simp only [supported, Bool.and_eq_true] at hsup; exact hsup.2
+    exact valAt_sample_eq_rhoD cfg w _ _ (rhoD_stepOn cfg hs w _ hsup hw)
+      (fun s hs' => opAt_tb1 cfg hs w op a b φ _ s (ih hsup' hw) hs') t ht
+  | tb2 op a b φ ψ ihφ ihψ =>
+    intro t ht
+    have hsup' := hsup
+    simp only [supported, Bool.and_eq_true] at hsup'
+    have hwφ : w.WF φ.vars := fun x hx => hw x (List.mem_append_left _ hx)
+    have hwψ : w.WF ψ.vars := fun x hx => hw x (List.mem_append_right _ hx)
+    have hd := dom_of_vars_append w (φ := .tb2 op a b φ ψ) (φ1 := φ) (φ2 := ψ) rfl
+    exact valAt_sample_eq_rhoD cfg w _ _ (rhoD_stepOn cfg hs w _ hsup hw)
+      (fun s hs' => opAt_tb2 cfg hs w op a b φ ψ _ _ s (ihφ hsup'.1.2 hwφ) (ihψ hsup'.2 hwψ)
+        (hd ▸ hs')) t ht
+
+/-- `evalAt_eq_rhoD` on the domain of the formula. -/
+theorem evalAt_eq_rhoD_partial (cfg : DCfg) (hs : 0 ≤ cfg.scale) (w : DEnv α) (φ : F α)
+    (hsup : supported φ = true) (hw : w.WF φ.vars) (t : Rat) (ht : dom w φ ≤ t) :
     evalAt cfg w φ t = rhoD cfg w φ t := by
-  sorry
+  unfold evalAt
+  rw [if_neg (not_lt.2 ht)]
+  exact asFun_sigOf_eq_rhoD cfg hs w φ hsup hw t ht
+
+/-- `evalAt` is the domain-restricted `rhoD`, at every time. -/
+theorem evalAt_eq_rhoD_restricted (cfg : DCfg) (hs : 0 ≤ cfg.scale) (w : DEnv α) (φ : F α)
+    (hsup : supported φ = true) (hw : w.WF φ.vars) (t : Rat) :
+    evalAt cfg w φ t = if t < dom w φ then none else rhoD cfg w φ t := by
+  by_cases ht : t < dom w φ
+  · unfold evalAt; rw [if_pos ht, if_pos ht]
+  · rw [if_neg ht]; exact evalAt_eq_rhoD_partial cfg hs w φ hsup hw t (not_lt.1 ht)
+
+/-- `evalAt_eq_rhoD` at every time, for guarded formulas over signals that start at `≥ 0`. -/
+theorem evalAt_eq_rhoD_partial' (cfg : DCfg) (hs : 0 ≤ cfg.scale) (w : DEnv α) (φ : F α)
+    (hsup : supported φ = true) (hw : w.WF φ.vars)
+    (hguard : guarded φ = true) (hpos : w.NonnegStart φ.vars) (t : Rat) :
+    evalAt cfg w φ t = rhoD cfg w φ t := by
+  rw [evalAt_eq_rhoD_restricted cfg hs w φ hsup hw t]
+  split
+  · rename_i ht; exact ((rhoD_none_before cfg w φ hpos).1 hguard t ht).symm
+  · rfl
+
+omit [LawfulVal α] in
+/-- Counterexample to `evalAt_eq_rhoD` as stated: a constant at a negative time. -/
+theorem evalAt_ne_rhoD_const (cfg : DCfg) (w : DEnv α) (c : α) :
+    evalAt cfg w (.const c) (-1) ≠ rhoD cfg w (.const c) (-1) := by
+  have hd : dom w (F.const c) = 0 := dom_of_vars_nil w rfl
+  unfold evalAt
+  rw [hd, if_pos (by norm_num)]
+  simp [rhoD]
+
+-- (the unrestricted statement `evalAt_eq_rhoD` is false before the domain start: see the `_false_` /
+-- `_ne_` theorems above; the restricted and partial forms are proved.)
+
 
 end Rtamt.Dense
